@@ -13,6 +13,13 @@ NOTE = ("Trusted base: clang 14 front end + CFG builder on the flags of the comp
 
 CLAIMS = {
     # pid: (technique, level text, design_ref)
+    "C04": ("effect analysis: census of every token-visible effect site (chunk text mutation, chunk creation, deletion, move) + inter-procedural liveness under the abstract default configuration (constant folding of dominating option tests along every call chain, latch flags included); same-block pairing of brace edits; guard analysis of brace removal; who-may-move in the sorters",
+            "All 135 sites that can change, create, delete or move a chunk are enumerated; with the mod_/cmt_ option families at their "
+            "defaults 105 are shown unreachable from uncrustify_file on every call chain, the rest act on newline/blank chunks by a "
+            "dominating type test or are six reviewed exceptions - that is the property's last sentence for all inputs. Brace "
+            "conversions, insertions and removals are shown to come in pairs under one path condition; braces are removed only after "
+            "the body scan found the matching close brace with one statement and under a remove setting; sorting permutes whole lines "
+            "only. The statement counting inside can_remove_braces/examine_brace (the arithmetic) is not decided.", "DESIGN.md section 4 C04"),
     "C06": ("three-valued abstract interpretation of every natural loop with a chunk cursor under cursor == NullChunk (navigation closure and predicate truth table derived from chunk.h/chunk.cpp bodies); guard analysis of every m_next/m_prev store; census of throwing conversions/regex constructions vs try blocks (AST ancestry); must-pass-through of a diagnostic before every non-zero exit; reachability of error exits from output_text",
             "All 376 loops that advance a Chunk* cursor through the navigation family are shown escapable when the cursor is the null "
             "chunk (the hang class of truncated/unbalanced input: ten such loops were found and fixed); the null chunk's links are "
